@@ -222,4 +222,92 @@ theorem signers_length : ∀ (vals : List Bytes) (sigs : List (Option σ)),
     | none => simpa [present] using ih
     | some x => simp [present] at ih ⊢; exact ih
 
+/-! ### proofContextMap.Verify -/
+
+/-- the `k`-th proof is a valid proof, in the sense of `verify`, for the context registered for
+    network type `ntid`, over the decision built from that same `ntid` and section hash `h`. -/
+def GoodFor (pcm : Int → Option Ctx) (decode : Bytes → Option (List (Option σ)))
+    (rec : Nat → Bytes → σ → Option Bytes) (src : Option Bytes) (height round : Int)
+    (proofs : List Bytes) (k : Nat) (ntid : Int) (h : Option Bytes) : Prop :=
+  ∃ ctx sigs, pcm ntid = some ctx ∧ decode (proofs.getD k []) = some sigs ∧
+    verify (rec ctx.uid (Decision.bytes
+      { src := src, ntid := ntid, height := height, round := round, ntsHash := h })) ctx.vals sigs = none
+
+theorem mapLoop_iff (pcm : Int → Option Ctx) (decode : Bytes → Option (List (Option σ)))
+    (rec : Nat → Bytes → σ → Option Bytes) (src : Option Bytes) (height round : Int)
+    (proofs : List Bytes) :
+    ∀ (digests : List (Int × Option Bytes)) (i : Nat),
+      verifyMapLoop pcm decode rec src height round proofs digests i = none ↔
+      ∀ (k : Nat) (ntid : Int) (h : Option Bytes), (registered pcm digests)[k]? = some (ntid, h) →
+        GoodFor pcm decode rec src height round proofs (i + k) ntid h
+  | [], i => by simp [verifyMapLoop, registered]
+  | (ntid, h) :: rest, i => by
+    unfold verifyMapLoop
+    cases hp : pcm ntid with
+    | none =>
+      have hr : registered pcm ((ntid, h) :: rest) = registered pcm rest := by
+        simp [registered, hp]
+      simp only [hr]
+      exact mapLoop_iff pcm decode rec src height round proofs rest i
+    | some ctx =>
+      have hr : registered pcm ((ntid, h) :: rest) = (ntid, h) :: registered pcm rest := by
+        simp [registered, hp]
+      simp only [hr]
+      cases hd : decode (proofs.getD i []) with
+      | none =>
+        simp only []
+        constructor
+        · intro hc; cases hc
+        · intro hall
+          obtain ⟨ctx', sigs, _, h2, _⟩ := hall 0 ntid h (by simp)
+          simp only [Nat.add_zero] at h2
+          rw [hd] at h2; cases h2
+      | some sigs =>
+        simp only []
+        cases hv : verify (rec ctx.uid (Decision.bytes
+            { src := src, ntid := ntid, height := height, round := round, ntsHash := h })) ctx.vals sigs with
+        | some e =>
+          simp only []
+          constructor
+          · intro hc; cases hc
+          · intro hall
+            obtain ⟨ctx', sigs', h1, h2, h3⟩ := hall 0 ntid h (by simp)
+            simp only [Nat.add_zero] at h2
+            rw [hp] at h1; cases h1
+            rw [hd] at h2; cases h2
+            rw [hv] at h3; cases h3
+        | none =>
+          simp only []
+          rw [mapLoop_iff pcm decode rec src height round proofs rest (i + 1)]
+          constructor
+          · intro hall k ntid' h' hk
+            cases k with
+            | zero =>
+              simp at hk
+              obtain ⟨rfl, rfl⟩ := hk
+              exact ⟨ctx, sigs, hp, by simpa using hd, hv⟩
+            | succ k =>
+              have := hall k ntid' h' (by simpa using hk)
+              have e : i + 1 + k = i + (k + 1) := by omega
+              rwa [e] at this
+          · intro hall k ntid' h' hk
+            have := hall (k + 1) ntid' h' (by simpa using hk)
+            have e : i + 1 + k = i + (k + 1) := by omega
+            rwa [e]
+
+theorem verifyMap_iff (pcm : Int → Option Ctx) (decode : Bytes → Option (List (Option σ)))
+    (rec : Nat → Bytes → σ → Option Bytes) (src : Option Bytes) (height round : Int)
+    (digests : List (Int × Option Bytes)) (proofs : List Bytes) :
+    verifyMap pcm decode rec src height round digests proofs = none ↔
+      (registered pcm digests).length = proofs.length ∧
+      ∀ (k : Nat) (ntid : Int) (h : Option Bytes), (registered pcm digests)[k]? = some (ntid, h) →
+        GoodFor pcm decode rec src height round proofs k ntid h := by
+  unfold verifyMap
+  by_cases hl : (registered pcm digests).length = proofs.length
+  · rw [if_neg (by simp [hl])]
+    rw [mapLoop_iff]
+    simp [hl]
+  · rw [if_pos hl]
+    simp [hl]
+
 end Goloop.C29.Proofs
